@@ -108,7 +108,14 @@ def replay(job):
 
             i = beh["free"][0]
             dn = sim.Get_dof_n()
-            sim._Bc_Add_Lagrange(LagrangeCondition(sim.problemType, np.array([i // dn]), np.array([i]), [sim.Get_unknowns()[i % dn]], np.array([exp[i]]), np.array([1.0])))
+            kn = sorted(beh["known"])
+            if kn and (idx % 2 == 0):
+                # a condition that TIES a free dof to a prescribed one, u_i - u_k = (exact difference): the solution is unchanged, and the
+                # prescribed (possibly non-zero) value enters the row of the multiplier
+                k_ = kn[0]
+                sim._Bc_Add_Lagrange(LagrangeCondition(sim.problemType, np.array([i // dn, k_ // dn]), np.array([i, k_]), [sim.Get_unknowns()[i % dn]], np.array([exp[i] - exp[k_]]), np.array([1.0, -1.0])))
+            else:
+                sim._Bc_Add_Lagrange(LagrangeCondition(sim.problemType, np.array([i // dn]), np.array([i]), [sim.Get_unknowns()[i % dn]], np.array([exp[i]]), np.array([1.0])))
         case = {"behaviour": beh, "mode": mode}
         try:
             with contextlib.redirect_stdout(io.StringIO()), np.errstate(all="ignore"):
